@@ -655,6 +655,8 @@ def sync_jobs(
         exclude = []
     elif not isinstance(exclude, list):
         exclude = [exclude]
+    else:
+        exclude = list(exclude)  # the caller's list is not to be changed
     exclude.append(re.escape(src.FN_STATE_POINT) + r"\Z")
     if doc_sync != DocSync.COPY:
         exclude.append(re.escape(src.FN_DOCUMENT) + r"\Z")
